@@ -123,6 +123,9 @@ theorem addShow_idem (e : Expr) (pc : Bool) (k : Nat) (hc : canon pc k e = true)
     simp only [canon, Bool.and_eq_true] at hc
     simp only [addShow, ih _ _ hc.2]
   | none => simp [canon] at hc
+  | namedField e ih =>
+    simp only [canon, Bool.and_eq_true] at hc
+    simp only [addShow, pg_idem 14 e (by omega) (ih _ _ hc.2)]
   | getline c t f ihc iht ihf =>
     obtain ⟨ht, hcf⟩ := canon_getline_parts pc k c t f hc
     have hT : addShow (addShow t) = addShow t := by
@@ -180,6 +183,9 @@ theorem showE_eq_render (e : Expr) (pc : Bool) (k : Nat) (hc : canon pc k e = tr
     simp only [canon, Bool.and_eq_true] at hc
     simp only [showE, addShow, render, ih _ _ hc.2]
   | none => simp [canon] at hc
+  | namedField e ih =>
+    simp only [canon, Bool.and_eq_true] at hc
+    simp only [showE, addShow, render, pg_render 14 (.namedField e) e rfl (ih _ _ hc.2)]
   | getline c t f ihc iht ihf =>
     obtain ⟨ht, hcf⟩ := canon_getline_parts pc k c t f hc
     have hT : showE t = render (addShow t) := by
@@ -235,6 +241,7 @@ theorem canon_false_of_true (e : Expr) : ∀ k, canon true k e = true → canon 
     simp only [canon, Bool.and_eq_true] at h ⊢
     exact ⟨h.1, ihr _ h.2⟩
   | none => intro k h; simp [canon] at h
+  | namedField e _ => intro k h; simpa [canon] using h
   | inArr e a ih =>
     intro k h
     simp only [canon, Bool.and_eq_true] at h ⊢
@@ -281,6 +288,7 @@ def firstTok : Expr → Tok
   | .incr pre dec e => if pre then (if dec then Tok.decr else Tok.incr) else firstTok e
   | .field _ => .dollar
   | .index a _ => .name a
+  | .namedField _ => .at
   | .getline c _ _ => if c = .none then .getline else firstTok c
   | _ => .eof
 
@@ -321,6 +329,7 @@ theorem render_first (e : Expr) : ∀ (pc : Bool) (k : Nat), canon pc k e = true
   | field e _ => intros; exact ⟨_, rfl⟩
   | index a i _ => intros; exact ⟨_, rfl⟩
   | none => intro pc k hc; simp [canon] at hc
+  | namedField e _ => intros; exact ⟨_, rfl⟩
   | getline c t f ihc _ _ =>
     intro pc k hc
     obtain ⟨_, hcf⟩ := canon_getline_parts pc k c t f hc
@@ -450,6 +459,10 @@ theorem canon_addShow (e : Expr) : ∀ pc k, canon pc k e = true → canon pc k 
     simp only [addShow, canon, Bool.and_eq_true] at h ⊢
     exact ⟨h.1, ih _ _ h.2⟩
   | none => intro pc k h; simp [canon] at h
+  | namedField e ih =>
+    intro pc k h
+    simp only [addShow, canon, Bool.and_eq_true] at h ⊢
+    exact ⟨h.1, canon_pg false 14 14 e (by omega) (by omega) h.2 ih⟩
   | getline c t f ihc iht ihf =>
     intro pc k h
     obtain ⟨ht, hcf⟩ := canon_getline_parts pc k c t f h
